@@ -52,7 +52,13 @@ ASSUMPTIONS = [
 ALLOWED_AXIOMS = []
 
 BOUND_SET = [None, 0, 1, 2, 10, 10 ** 9]
-FRACTION_SET = [["f", 0.5], ["dec", "2.25"], ["s", "1.5"], ["f", 1e-05], ["s", "5"]]      # non-int offsets: str(value) is rendered
+FRACTION_SET = [["f", 0.5], ["dec", "2.25"], ["s", "1.5"], ["f", 1e-05], ["s", "5"],      # non-int offsets: str(value) is rendered
+                ["f", 0.125], ["dec", "0.001"], ["f", 0.999], ["dec", "123456789.987654321"], ["f", 1e+16], ["s", "0.0005"]]
+BIG_BOUNDS = [10 ** 18, 2 ** 63, 999999999999]
+# values of numeric special-clause parameters (percentile ...): 3+ decimals, values that rounding to 1-2 decimals changes,
+# very small and very large ones; str(float(v)) must arrive in the clause
+NUM_POOL = [0.999, 0.005, 0.975, 1e-05, 0.123456789, 123456.789, 1e+20, 0.30000000000000004, 0.995, 3e-07, 0.015, 0.0049]
+LEN_POOL = [1, 255, 256, 65535, 10 ** 9, 2 ** 31, 7, 4000]
 Q = '"'
 KW = dict(with_namespace=False, quote_char=Q, dialect=None)
 
@@ -131,16 +137,16 @@ def probe_value(kind, k):
     if kind == "PWord":
         return "SENT%d" % k
     if kind == "PNum":
-        return k + 0.5
+        return k + 0.625          # three decimals: a parameter that is rounded or truncated on the way is not "clean"
     return types.SimpleNamespace(value="ENC%d" % k)
 
 
 def probe_text(kind, k):
-    return {"PTerm": '"s%d"' % k, "PWord": "SENT%d" % k, "PNum": "%d.5" % k, "PEnum": "ENC%d" % k}[kind]
+    return {"PTerm": '"s%d"' % k, "PWord": "SENT%d" % k, "PNum": "%d.625" % k, "PEnum": "ENC%d" % k}[kind]
 
 
 def probe_marker(kind, k):
-    return {"PTerm": "s%d" % k, "PWord": "SENT%d" % k, "PNum": "%d.5" % k, "PEnum": "ENC%d" % k}[kind]
+    return {"PTerm": "s%d" % k, "PWord": "SENT%d" % k, "PNum": "%d.625" % k, "PEnum": "ENC%d" % k}[kind]
 
 
 def term_text(t):
@@ -378,14 +384,16 @@ def arg_value(spec):
         return None, "PTerm"
     if t == "star":
         return "*", "PTerm"
-    if t == "sqltype":                  # an object with get_sql: behaves like a term
+    if t == "sqltype":                  # an object with get_sql: behaves like a term; the length is a numeric parameter
+        if len(spec) > 2:
+            return [SqlTypes.VARCHAR, SqlTypes.CHAR, SqlTypes.BINARY, SqlTypes.VARBINARY][spec[2] % 4](LEN_POOL[spec[2] % len(LEN_POOL)]), "PTerm"
         return (SqlTypes.VARCHAR(10 + k) if k % 2 else SqlTypes.LONG_VARCHAR), "PTerm"
     if t == "word":
         return ["YEAR", "MONTH", "DAY", "VARCHAR", "DECIMAL(10,2)", "HOUR"][k % 6], "PWord"
     if t == "lword":                    # lower-case word: Cast upper-cases a str type (oracle only)
         return ["year", "varchar"][k % 2], "PWordLower"
-    if t == "num":
-        return k + 0.25, "PNum"
+    if t == "num":                      # a numeric parameter of a special clause: the clause must carry the value given
+        return (NUM_POOL[spec[2] % len(NUM_POOL)] if len(spec) > 2 else k + 0.25), "PNum"
     if t == "enum":
         return [DatePart.year, DatePart.quarter, DatePart.week, types.SimpleNamespace(value="utf8")][k % 4], "PEnum"
     raise ValueError(spec)
@@ -397,6 +405,8 @@ def arg_alone_text(spec):
     v, kind = arg_value(spec)
     if spec[0] == "star":
         return Star().get_sql(with_alias=False, subquery=True, **_kw())
+    if spec[0] == "sqltype" and len(spec) > 2:      # stated a priori: TYPE(length) with the length given
+        return "%s(%d)" % (["VARCHAR", "CHAR", "BINARY", "VARBINARY"][spec[2] % 4], LEN_POOL[spec[2] % len(LEN_POOL)])
     if spec[0] == "sqltype":
         return v.get_sql(**_kw())
     if kind == "PTerm":
@@ -707,13 +717,15 @@ def pick_args(rng, kinds, variety=True, special=None, cls=None):
     sp_ix = special[1] if special else None
     for k, kd in enumerate(kinds):
         if kd == "PTerm" and k == sp_ix:
-            out.append([rng.choice(["field", "fn", "arith"] + (["sqltype", "sqltype"] if cls == "Cast" else ["subq"])) if variety else "field", k])
+            out.append([rng.choice(["field", "fn", "arith"] + (["sqltype", "sqltype", "sqltype"] if cls == "Cast" else ["subq"])) if variety else "field", k])
+            if out[-1][0] == "sqltype" and rng.random() < 0.7:
+                out[-1] = ["sqltype", k, rng.randrange(32)]
         elif kd == "PTerm":
             out.append([rng.choice(TERM_SPECS) if variety else "field", k])
         elif kd == "PWord":
             out.append(["word", k])
         elif kd == "PNum":
-            out.append(["num", k])
+            out.append(["num", k, rng.randrange(len(NUM_POOL))] if variety else ["num", k])
         else:
             out.append(["enum", k])
     return out
@@ -723,7 +735,7 @@ def rand_bound(rng, allow_cur=True):
     r = rng.random()
     if allow_cur and r < 0.2:
         return ["cur"]
-    return [rng.choice(["prec", "foll"]), rng.choice(BOUND_SET + BOUND_SET + FRACTION_SET)]
+    return [rng.choice(["prec", "foll"]), rng.choice(BOUND_SET + BOUND_SET + FRACTION_SET + BIG_BOUNDS)]
 
 
 def rand_frame(rng):
@@ -1033,6 +1045,29 @@ def branch_block(rng, tier):
     return out
 
 
+def numeric_block(rng):
+    """every numeric parameter of a special clause over its whole value pool: ApproximatePercentile's percentile
+    (every class whose probe has a PNum argument), CAST(.. AS TYPE(length)), frame offsets (single bounds)"""
+    out = []
+    for e in catalogue():
+        for kinds, slots, special in e["probes"]:
+            if "PNum" not in kinds:
+                continue
+            for j in range(len(NUM_POOL)):
+                args = [["num", k, j] if kd == "PNum" else (["field", k] if kd == "PTerm" else pick_args(rng, [kd])[0][:1] + [k]) for k, kd in enumerate(kinds)]
+                c = base_case(e, kinds, args)
+                if e["agg"] and j % 3 == 0:
+                    c["ops"] = [["filter", [0]]]
+                out.append(c)
+    for j in range(32):
+        out.append({"mod": "pypika.functions", "cls": "Cast", "args": [["field", 0], ["sqltype", 1, j]], "ops": [], "ro": {}})
+    for n in FRACTION_SET + BIG_BOUNDS:
+        for d in ("prec", "foll"):
+            out.append({"mod": "pypika.analytics", "cls": "Avg", "args": [["field", 0]], "ro": {},
+                        "ops": [["orderby", [["field", 1]], None], ["range", [d, n], None]]})
+    return out
+
+
 def subquery_block(rng):
     """a scalar sub-query in every position of the family: plain argument, inside CAST / EXTRACT, FILTER criterion operand
     (alone, first, last; > , IN, reversed), PARTITION BY term, ORDER BY term with and without direction, all at once"""
@@ -1063,7 +1098,7 @@ def subquery_block(rng):
 
 
 def gen_cases(rng, tier):
-    out = subquery_block(rng) + frame_block(rng) + distinct_block(rng) + filter_block(rng) + branch_block(rng, tier) + wrapper_cases(rng, tier)
+    out = numeric_block(rng) + subquery_block(rng) + frame_block(rng) + distinct_block(rng) + filter_block(rng) + branch_block(rng, tier) + wrapper_cases(rng, tier)
     out += generic_cases(rng, 300 if tier == "quick" else 4000)
     out += malformed_cases(rng, 150 if tier == "quick" else 1500)
     if tier != "quick":
@@ -1090,6 +1125,9 @@ def corpus():
         {"mod": "pypika.analytics", "cls": "Sum", "args": s0, "ops": [["over", [["field", 0]]], ["orderby", [["subq", 1]], None]], "ro": {}},
         {"mod": "pypika.analytics", "cls": "Sum", "args": s0, "ops": [["over", [["subq", 0]]]], "ro": {}},
         {"mod": "pypika.functions", "cls": "Extract", "args": [["word", 0], ["subq", 1]], "ops": [], "ro": {}},
+        # red-team seed C18-19: a numeric special-clause parameter arrives as given (no rounding)
+        {"mod": "pypika.functions", "cls": "ApproximatePercentile", "args": [["field", 0], ["num", 1, 0]], "ops": [], "ro": {}},
+        {"mod": "pypika.functions", "cls": "ApproximatePercentile", "args": [["field", 0], ["num", 1, 1]], "ops": [["filter", [0]]], "ro": {}},
         # red-team seed C18-11: a base window specialised twice must not share its ORDER BY / PARTITION BY / FILTER lists
         {"mod": "pypika.analytics", "cls": "Sum", "args": s0, "ops": [["over", [["field", 0]]], ["orderby", [["field", 31]], None]], "ro": {},
          "branch": {"prefix": 1, "others": [[["orderby", [["field", 32]], "desc"]]], "before": 1, "render": "own-last"}},
